@@ -3,11 +3,12 @@ use crate::core::World;
 
 pub mod base64;
 pub mod decode;
+pub mod kitty;
 pub mod queue;
 pub mod render;
 pub mod sgr;
 pub mod tty;
 
 pub fn all() -> Vec<World> {
-    vec![base64::world(), queue::world(), decode::world(), tty::world(), render::world(), sgr::world()]
+    vec![base64::world(), queue::world(), decode::world(), tty::world(), render::world(), sgr::world(), kitty::world()]
 }
